@@ -251,8 +251,11 @@ def mk_sig(signer: dict, keys: list[dict], inc: dt.datetime, exp: dt.datetime, o
     return s
 
 
+TS_SUFFIX = "+00:00"      # the archived KSRs write timestamps without an offset ("" here); both forms mean UTC
+
+
 def fmt_dt(d: dt.datetime) -> str:
-    return d.astimezone(UTC).strftime("%Y-%m-%dT%H:%M:%S+00:00")
+    return d.astimezone(UTC).strftime("%Y-%m-%dT%H:%M:%S") + TS_SUFFIX
 
 
 def fmt_dur(td: dt.timedelta) -> str:
